@@ -186,7 +186,7 @@ def line_and_poly(ctx):
             r = reps[0]
             i = atom(r.var)
             hi = r.hi
-            ok = r.lo == const(1) and str(r.hi).startswith("len(") and len(r.items) == 1 and r.items[0].kind == "Line" \
+            ok = r.lo == const(1) and r.hi == ev.len_atom("self.points") and len(r.items) == 1 and r.items[0].kind == "Line" \
                 and same(r.items[0].args[0], P(i - const(1))) and same(r.items[0].args[1], P(i))
         if not polygon:
             ctx.ob("R06.1", "_Polyshape.segments[move then linetos]", ok, repr(seq)[:200], fn.lineno,
